@@ -118,7 +118,7 @@ def _family(op, arg):
 def generate(tier, rng):
     quick = tier == "quick"
     table = _atoms_table()
-    reps = 1 if quick else 6
+    reps = 24 if quick else 220
     ci = 0
     for rep in range(reps):
         rng.shuffle(table)
@@ -138,21 +138,21 @@ def generate(tier, rng):
                       for v in [1, True, 1.0, -1, -1.0, 0, False, 0.0, -2.0]]
     dense_filters += [qc.make_atom(k, op, v, 0) for k in ["a", "doc.d"] for op in ["$in", "$nin"]
                       for v in [[1], [True, -1.0], [0.0], [False, 2]]]
-    for rep in range(4 if quick else 40):
+    for rep in range(40 if quick else 300):
         rng.shuffle(dense_filters)
         for i in range(0, len(dense_filters), FILTERS_PER_CASE):
             ci += 1
             yield {"jobs": _dense_corpus(rng), "filters": dense_filters[i:i + FILTERS_PER_CASE], "loc": ci % 5 == 0}
-    n_logic = 60 if quick else 900
+    n_logic = 2500 if quick else 22000
     for j in range(n_logic):
         ci += 1
         yield {"jobs": _corpus(rng, ci), "filters": _logical_small_scope(rng, FILTERS_PER_CASE), "loc": ci % 5 == 0}
-    n_rand = 70 if quick else 3500
+    n_rand = 3000 if quick else 28000
     for j in range(n_rand):
         ci += 1
         fs = [qc.rand_filter(rng, rng.choice([0, 1, 1, 2, 2, 3])) for _ in range(FILTERS_PER_CASE)]
         yield {"jobs": _corpus(rng, ci), "filters": fs, "loc": ci % 5 == 0}
-    n_mal = 4 if quick else 40
+    n_mal = 30 if quick else 200
     for j in range(n_mal):
         ci += 1
         yield {"jobs": _corpus(rng, ci), "filters": list(qc.MALFORMED), "loc": False}
@@ -220,7 +220,6 @@ def run_case(case, ctx):
     model, impl, oracle, tags = [], [], [], ["jobs=%d" % len(listing)]
     fail_classes, dbg = [], []
     singles = []
-    fixed6b = qc.f6b_fixed()
     try:
         if case.get("loc") and listing:
             for i, sp, doc in listing:
@@ -228,15 +227,9 @@ def run_case(case, ctx):
                 singles.append((sd, sproj, slist))
         for flt in filters:
             line, ids = qc.impl_find(project, flt, order)
-            # the model mirrors the planned fix of F-6b; until the running code has it, filters of
-            # that class are judged by the oracle alone
-            diffable = fixed6b or not qc.not_doc_class(flt)
-            if diffable:
-                model.append("find " + qc.payload(listing, flt))
-                impl.append(line)
-                dbg.append(flt)
-            else:
-                tags.append("F-6b-class-not-diffed")
+            model.append("find " + qc.payload(listing, flt))
+            impl.append(line)
+            dbg.append(flt)
             acc, reason = qc.oracle_set(listing, flt)
             for op in qc.filter_ops(flt):
                 tags.append("op=" + op)
@@ -258,7 +251,7 @@ def run_case(case, ctx):
                     fails += more
                 # locality: the verdict on a job is the verdict of the same filter on a project
                 # holding only that job (real code), and the model's reference evaluator agrees
-                if singles and diffable:
+                if singles:
                     verdicts = []
                     for (sd, sproj, slist) in singles:
                         sline, sids = qc.impl_find(sproj, flt, [slist[0][0]])
@@ -286,7 +279,6 @@ def run_case(case, ctx):
 
 def known_class(case, result):
     """F-6a: `$type` on a key under which the corpus holds a bool and an ==-equal int at top level.
-    F-6b: the document namespace occurs only below `$not`.
     A case is explained only if every failing filter of it is in one of these classes."""
     cl = result.get("fail_classes") or []
     if not cl or any(c is None for c in cl):
@@ -294,5 +286,27 @@ def known_class(case, result):
     return cl[0]
 
 
-LEVEL_TEXT = "see harness/props/c06.py (filled in at the end of the build)"
-LEVEL_NOTE = ""
+LEVEL_TEXT = ("Proved in Lean, for corpora of any size and filters of any depth over the whole modelled grammar "
+              "(implicit equality, $eq $ne $gt $gte $lt $lte $in $nin $exists $regex $type $near, $and/$or/$not nested "
+              "arbitrarily, dotted or nested keys, sp./doc. namespaces): the index-based search of the model "
+              "(per-key value index with dict-slot semantics incl. the float wrapper and True/1 slot sharing, operator "
+              "evaluation on the stored keys, int/float dual lookup, set algebra with early exits, documents indexed "
+              "iff 'doc' is a root key) returns exactly the ids of the jobs a structural per-job evaluator accepts "
+              "(find_eq_ref_partial, find_mem_iff_partial); corollaries: locality (find_local_partial), $not = "
+              "complement, $and = intersection, $or = union (not_compl/and_inter/or_union_partial), and that deciding "
+              "from the root keys whether documents are indexed loses nothing (indexed_data_suffices). Hypotheses: "
+              "distinct ids; well-typed filter (direct evaluation raises for no job); math.isclose depends on the numeric "
+              "value only; lists in job data hold no mappings (proof restriction); no $type atom on a key under which two "
+              "jobs hold a bool and an ==-equal int (finding F-6a; the unrestricted statement is proved FALSE of the model "
+              "from the two-job witness, find_eq_ref_full_false). The model is compared with the real Project.find_jobs on "
+              "real on-disk projects for every generated (corpus, filter) pair, result sets and exception kinds, and its "
+              "reference evaluator with the real code's verdict on single-job projects.")
+LEVEL_NOTE = ("Trusted: Lean kernel; axioms propext/Classical.choice/Quot.sound; harness (generators, wire format, tables of "
+              "re.search / float(str) / math.isclose results, workspace listing order) and the independent Python per-job "
+              "evaluator used as oracle. Not proved: the statement for job data with mappings inside lists "
+              "(find_eq_ref_nonflat is kept as a Prop; such data are generated and compared in the correspondence only); "
+              "$where and the unreachable _id shortcut are outside the model. _root_keys descends into $not (F-6b, fixed in "
+              "/repo): the model has the same rule, filters mentioning doc only below $not take part in the diff like "
+              "any other, and the former behaviour is shown wrong in the model (old_root_keys_lose_documents). One filter naming "
+              "the same key in two spellings ('a' and 'sp.a') silently keeps only the later entry in the code and in the "
+              "model; the oracle gives no verdict on such filters.")
